@@ -64,6 +64,12 @@ def task_stateless(task, rec, out):
             fs = engine.check_stateless(
                 sess, rec, f"{task['key']}/{tag}", task, outputs=task.get("outputs"), check_entities=task.get("check_entities", True)
             )
+            if task.get("naming"):
+                fs += engine.check_naming(sess, rec, f"{task['key']}/{tag}", mode)
+            if task.get("places"):
+                fs += engine.check_places(sess, rec, f"{task['key']}/{tag}")
+            if task.get("fresh"):
+                fs += engine.check_fresh(sess, rec, f"{task['key']}/{tag}")
             for f in fs:
                 f["src"] = r["src"]
                 f["build"] = build
@@ -83,6 +89,8 @@ def task_history(task, rec, out):
             continue
         sess = engine.Session(stmts, r["json"])
         fs, S = engine.check_history(sess, rec, f"{task['key']}/{tag}", K, bool_inputs=task.get("bool_inputs", ()), outputs=task.get("outputs"))
+        if task.get("places"):
+            fs += engine.check_places(sess, rec, f"{task['key']}/{tag}")
         out.setdefault("hold_ticks", []).append(S)
         for f in fs:
             f["src"] = r["src"]
@@ -107,4 +115,42 @@ def task_loop(task, rec, out):
         out["findings"] += fs
 
 
-KINDS = {"stateless": task_stateless, "history": task_history, "loop": task_loop}
+def task_equiv(task, rec, out):
+    """twins: pairs of (program, build) compiled by the real compiler, compared for all inputs / K-step histories.
+    task['pairs'] = [{'a': {'stmts','build','files'?}, 'b': {...}, 'names': None|[...], 'tag': str}]"""
+    cache = {}
+
+    def get(side):
+        ck = json.dumps([side["stmts"], side["build"], side.get("extra")], sort_keys=True, default=str)
+        if ck not in cache:
+            r = _compile(side["stmts"], side["build"], "full", side.get("extra"))
+            _note_compile(out, side["build"].get("tag", "?") + ":" + side.get("label", ""), r)
+            cache[ck] = r
+        return cache[ck]
+
+    for pair in task["pairs"]:
+        ra, rb = get(pair["a"]), get(pair["b"])
+        tag = pair.get("tag", "pair")
+        if not ra.get("ok") or not rb.get("ok"):
+            if ra.get("ok") != rb.get("ok") and task.get("acceptance_must_agree", True):
+                out["findings"].append({"key": f"{task['key']}/{tag}:accept", "what": f"twins are not both accepted: A ok={ra.get('ok')} ({(ra.get('error') or '')[:120]}), B ok={rb.get('ok')} ({(rb.get('error') or '')[:120]})", "kind": "twin-accept", "closed": True, "src": ra["src"], "src_b": rb["src"]})
+            continue
+        sa = engine.Session(pair["a"]["stmts"], ra["json"])
+        sb = engine.Session(pair["b"]["stmts"], rb["json"])
+        fs = engine.check_equiv(sa, sb, rec, f"{task['key']}/{tag}", names=pair.get("names"), K=task.get("K"), bool_inputs=task.get("bool_inputs", ()))
+        for f in fs:
+            f["src"] = ra["src"]
+            f["src_b"] = rb["src"]
+            f["build"] = pair["a"]["build"]
+            f["build_b"] = pair["b"]["build"]
+        out["findings"] += fs
+
+
+def task_fresh(task, rec, out):
+    """C13: closed clause on the allocated signals + equivalence with the explicitly renamed twin"""
+    t1 = dict(task, fresh=True, check_entities=False, outputs=[])
+    task_stateless(t1, rec, out)
+    task_equiv(task, rec, out)
+
+
+KINDS = {"fresh": task_fresh, "stateless": task_stateless, "history": task_history, "loop": task_loop, "equiv": task_equiv}
